@@ -465,6 +465,36 @@ func runC15(w *World, r *Report) {
 		}
 	}
 
+	// ---- pointers: the static walk follows as many pointer levels as the run-time code does (one)
+	r.Rule("C15.pointer-peel-agrees", "checkAndExtractFieldType dereferences pointer levels the way takeOne / checkAndExtractToField do at run time: both once, or both in a loop", 1)
+	{
+		peelLoops := func(fn *ssa.Function) int {
+			n := 0
+			for _, li := range naturalLoops(fn) {
+				iff, ok := li.header.Instrs[len(li.header.Instrs)-1].(*ssa.If)
+				if !ok {
+					continue
+				}
+				_, x, y, ok := asCmp(iff.Cond)
+				if !ok {
+					continue
+				}
+				c, ok := x.(*ssa.Call)
+				if !ok || !strings.HasSuffix(calleeFullName(c), ".Kind") {
+					continue
+				}
+				if k, ok := constInt(y); ok && k == int64(reflect.Ptr) {
+					n++
+				}
+			}
+			return n
+		}
+		static := peelLoops(w.Fn("compose", "checkAndExtractFieldType"))
+		runtime := peelLoops(w.Fn("compose", "takeOne")) + peelLoops(w.Fn("compose", "checkAndExtractFromField"))
+		r.Check((static > 0) == (runtime > 0), "C15.pointer-peel-agrees", "static path walk vs takeOne: pointer levels", w.Fn("compose", "checkAndExtractFieldType").Pos(), fmt.Sprintf("pointer-peeling loops: static %d, run time %d", static, runtime),
+			fmt.Sprintf("the static walk peels pointer levels in a loop (%d) while the run-time extraction dereferences once (%d loops): a path through **T is accepted by Compile and panics on every run ('input is not struct, struct ptr or map')", static, runtime))
+	}
+
 	// ---- intermediates are created once: an existing pointer / map on a target path is never replaced
 	r.Rule("C15.instantiate-once", "instantiateIfNeeded sets a pointer / map field only when it is nil", 2)
 	{
